@@ -104,6 +104,10 @@ func runMutants(opts *Options, p *PropInfo, rep *Report) []mutantResult {
 				if f := seedfix4[p.ID]; f != nil {
 					f(ctx)
 				}
+				if f := seedfix5[p.ID]; f != nil {
+					f(ctx)
+				}
+				runGeneric(ctx, p.ID)
 			}()
 			for _, o := range sub.Obs {
 				if o.Status != Violation {
